@@ -150,13 +150,11 @@ def install(eng):
     # immutable per-run functions used by the oracle Spec (DESIGN 3). They are uninterpreted: a proof
     # holds for every graph, every backend answer and every file state.
     vc.f_deps0 = z3.Function("deps0", vc.Target.sort(), TS.sort())
-    vc.f_rank = z3.Function("rank", vc.Target.sort(), z3.IntSort())
     vc.f_bstat0 = z3.Function("bstat0", vc.Target.sort(), vc.BStatus.sort())
     vc.f_stale0 = z3.Function("stale0", vc.Target.sort(), z3.BoolSort())
     vc.f_SpecF = z3.Function("SpecF", vc.Target.sort(), vc.Status.sort())
     vc.f_X = z3.Function("X", vc.Target.sort(), z3.BoolSort())  # an ARBITRARY closed superset of the endpoints
     eng.fn("deps0")(lambda e, st, t: V(TS, vc.f_deps0(t.z)))
-    eng.fn("rank")(lambda e, st, t: V(T.INT, vc.f_rank(t.z)))
     eng.fn("bstat0")(lambda e, st, t: V(vc.BStatus, vc.f_bstat0(t.z)))
     eng.fn("stale0")(lambda e, st, t: V(T.BOOL, vc.f_stale0(t.z)))
     eng.fn("SpecF")(lambda e, st, t: V(vc.Status, vc.f_SpecF(t.z)))
@@ -182,8 +180,6 @@ def install(eng):
              z3.If(z3.Or(notdone, vc.f_stale0(u)), S.const("SHOULDRUN"), S.const("COMPLETED"))))))
     # definitional: SpecF exists and is unique by well-founded recursion over rank (lean/Meta.lean)
     eng.axiom("spec", z3.ForAll([u], vc.f_SpecF(u) == unfold))
-    eng.axiom("rank", z3.ForAll([u, d], z3.Implies(z3.Select(vc.f_deps0(u), d), vc.f_rank(d) < vc.f_rank(u))))
-    eng.axiom("rank", z3.ForAll([u], vc.f_rank(u) >= 0))
     # X is closed under dependencies (it is an arbitrary such set: see c_scheduling)
     eng.axiom("cone", z3.ForAll([u, d], z3.Implies(z3.And(vc.f_X(u), z3.Select(vc.f_deps0(u), d)), vc.f_X(d))))
 
@@ -194,3 +190,76 @@ def install(eng):
     eng.ghost("bnow", T.MapT(vc.Target, vc.BStatus))
     # interface view of a spec-hash store: the set of targets whose spec differs from the record
     vc.FnRef = FnRef
+
+    # ================================================================== graph construction vocabulary
+    NT = T.DictT(vc.Name, vc.Target)
+    vc.NameTargets = NT
+    eng.universe("Name", vc.Name)
+    eng.universe("Graph", vc.Graph)
+
+    def valset(d):
+        k = vc.Name.fresh("k")
+        y = vc.Target.fresh("y")
+        return z3.Lambda([y], z3.Exists([k], z3.And(z3.Select(NT.dom(d), k), z3.Select(NT.vals(d), k) == y)))
+
+    vc.valset = valset
+    eng.fn("ValSet")(lambda e, st, d: V(TS, valset(d.z)))
+    eng.fn("DepsOfD")(lambda e, st, dd, t: V(TS, view(dd.z, t.z)))
+    vc.f_InT = z3.Function("InT", vc.Target.sort(), z3.BoolSort())   # "is a target of the workflow"
+    eng.fn("InT")(lambda e, st, t: V(T.BOOL, vc.f_InT(t.z)))
+    vc.f_Reach = z3.Function("Reach", vc.Target.sort(), vc.Target.sort(), z3.BoolSort())
+    eng.fn("Reach")(lambda e, st, a, b: V(T.BOOL, vc.f_Reach(a.z, b.z)))
+    a_, b_, c_ = vc.Target.fresh("a"), vc.Target.fresh("b"), vc.Target.fresh("c")
+    # introduction rules only (they hold of the least relation closed under deps0)
+    eng.axiom("reach", z3.ForAll([a_, b_], z3.Implies(z3.Select(vc.f_deps0(a_), b_), vc.f_Reach(a_, b_))))
+    eng.axiom("reach", z3.ForAll([a_, b_, c_], z3.Implies(z3.And(vc.f_Reach(a_, b_), z3.Select(vc.f_deps0(b_), c_)),
+                                                          vc.f_Reach(a_, c_))))
+
+    # path-induced dependency relation (C03): b depends on a iff an input path of b is an output path of a
+    def pathdep(b, a):
+        p = vc.Path.fresh("p")
+        return z3.And(vc.f_InT(a), vc.f_InT(b), z3.Exists([p], z3.And(z3.Select(vc.f_Ins(b), p), z3.Select(vc.f_Outs(a), p))))
+
+    vc.pathdep = pathdep
+    eng.fn("PathDep")(lambda e, st, b, a: V(T.BOOL, pathdep(b.z, a.z)))
+    # DFS finishing times (ghost) double as the rank that witnesses acyclicity
+    eng.ghost("fin", T.MapT(vc.Target, T.INT))
+    eng.ghost("clock", T.INT)
+
+    def rank_of(e, st, t):
+        f = z3.Select(st.ghost["fin"].z, t.z)
+        return V(T.INT, z3.If(f < 0, z3.IntVal(0), f))
+
+    eng.vocab["rank"] = rank_of
+
+    # ================================================================== os.path algebra (trusted stdlib)
+    import os
+    PT = vc.Path
+    vc.f_join = z3.Function("os_join", PT.sort(), PT.sort(), PT.sort())
+    vc.f_isabs = z3.Function("os_isabs", PT.sort(), z3.BoolSort())
+    vc.f_abspath = z3.Function("os_abspath", PT.sort(), PT.sort())
+    vc.f_normpath = z3.Function("os_normpath", PT.sort(), PT.sort())
+    vc.cwd = z3.Const("os_cwd", PT.sort())
+    w_, p_ = PT.fresh("w"), PT.fresh("p")
+    eng.axiom("ospath", z3.ForAll([w_, p_], z3.Implies(vc.f_isabs(p_), vc.f_join(w_, p_) == p_)))
+    eng.axiom("ospath", z3.ForAll([p_], vc.f_abspath(p_) ==
+                                  vc.f_normpath(z3.If(vc.f_isabs(p_), p_, vc.f_join(vc.cwd, p_)))))
+    eng.axiom("ospath", z3.ForAll([p_], vc.f_normpath(vc.f_normpath(p_)) == vc.f_normpath(p_)))
+    # Canon (DESIGN 3): "resolved against the working directory and normalised"
+    eng.fn("Canon")(lambda e, st, wd, p: V(PT, vc.f_abspath(vc.f_join(wd.z, p.z))))
+
+    def rule1(f, arity):
+        def rule(e, args, kw, st, sink, n):
+            zs = [e.coerce(a, PT, n).z for a in args]
+            if len(zs) != arity:
+                from pyvc.core import Unsupported
+                raise Unsupported("os.path call arity", n)
+            r = f(*zs)
+            yield st, V(T.BOOL if r.sort() == z3.BoolSort() else PT, r)
+        return rule
+
+    eng.rules[os.path.join] = rule1(vc.f_join, 2)
+    eng.rules[os.path.isabs] = rule1(vc.f_isabs, 1)
+    eng.rules[os.path.abspath] = rule1(vc.f_abspath, 1)
+    eng.rules[os.path.normpath] = rule1(vc.f_normpath, 1)
+    eng.rules[os.fspath] = lambda e, args, kw, st, sink, n: iter([(st, args[0])])   # str -> itself
